@@ -78,15 +78,51 @@ def explicit(tier, seed):
         opts = {"hang_s": 3.0}
         if j % 3 == 0:
             opts["perturb"] = {"p": 0.03, "seed": j}
+        elif j % 3 == 1:
+            opts["perturb"] = {"p": 0.0, "seed": j, "files": ["executor.py", "state.py", "models.py"], "after_sync": {"p": 0.5, "sleep": 0.003}}
         yield {"label": "mixed-parking", "prog": {"body": [node, {"k": "wait", "s": 1}, {"k": "step", "val": "end"}]}, "prog_seed": 21500 + j,
                "pattern": {"p": "plain"}, "world": world, "opts": opts, "max_inv": 40}
+
+
+def late_timer_cases(tier, seed):
+    """The service acts on a due timer a little late, so a branch resumed by the in-process timer finds its operation still pending
+    and parks again at once, while a sibling keeps the block running; the thread that signals / hands over loses the CPU right after
+    doing so (after-sync perturbation). Every such run must still end, and every PENDING must still be sound."""
+    rng = random.Random(seed + 5)
+    i = 0
+    for lag in (0.3, 1.0):
+        for kind in ("par", "map"):
+            for parker in ("retry", "wfc", "retry-amo", "two-retriers"):
+                for rep in range(1 if tier == "quick" else 4):
+                    if parker == "wfc":
+                        p0 = [{"k": "wfc", "init": 0, "decisions": [("cont", 1), ("cont", 1), ("stop",)]}]
+                    else:
+                        p0 = [{"k": "step", "script": [{"do": "fail", "cls": "ValueError", "msg": "x"}, {"do": "ok", "val": 7}],
+                               "retry": {"decisions": [("retry", 1), ("stop",)]}, "sem": "most" if parker == "retry-amo" else "least"}]
+                    brs = [{"body": p0 + [{"k": "step", "val": "next"}]}, {"body": [{"k": "step", "script": [{"do": "ok", "val": "busy", "gate": "busy"}]}]}]
+                    if parker == "two-retriers":
+                        brs.insert(1, {"body": [dict(p0[0]), {"k": "wait", "s": 1}, {"k": "step", "val": "n2"}]})
+                    node = {"k": "par", "branches": brs, "cfg": {"preset": "all_completed"}} if kind == "par" else \
+                        {"k": "map", "items": list(range(len(brs))), "per_item": brs, "body": [], "cfg": None}
+                    holds = [{"match": {"kind": "gate", "name": "busy"}, "until": {"event": {"kind": "ret", "path": "0/b0/0"}}, "delay_ms": rng.choice([0, 3])}]
+                    yield {"label": "late-timer|%s|%s" % (kind, parker), "prog": {"body": [node, {"k": "step", "val": "end"}]}, "prog_seed": 21800 + i,
+                           "pattern": {"p": "plain"}, "holds": holds, "world": {"complete": {}, "timers": "all", "timer_lag": lag}, "max_inv": 12,
+                           "opts": {"idle_s": 0.8, "hang_s": 3.0,
+                                    "perturb": {"p": 0.0, "seed": seed * 977 + i, "files": ["executor.py", "state.py", "models.py"],
+                                                "after_sync": {"p": rng.choice([0.4, 0.7]), "sleep": rng.choice([0.002, 0.004])}}}}
+                    i += 1
+
+
+def explicit_all(tier, seed):
+    yield from explicit(tier, seed)
+    yield from late_timer_cases(tier, seed)
 
 
 SPEC = Spec(
     PROP,
     props=["C07"],
     level="exploration",
-    explicit=explicit,
+    explicit=explicit_all,
     gen={"kinds": ["wait", "wait", "cb", "wfcb", "invoke", "wfc", "rstep", "step", "child", "par", "par", "map", "map"], "max_ops": 12},
     quick={"plain": 90, "enum": 6, "rand": 16, "async": 0, "perturb": 30},
     thorough={"plain": 900, "enum": 60, "rand": 200, "async": 60, "perturb": 300, "k1": 16},
@@ -94,7 +130,7 @@ SPEC = Spec(
     "level and inside nested map/parallel, with timers fired one at a time or together, external completions delivered inside the START "
     "response / between invocations / after spurious re-invocations, one at a time or all; a livelock hunt with 2-4 branches that park "
     "on an already-due timed suspension, staggered by a sibling held inside its step function and perturbed by LINE-level yield "
-    "injection; random crash points. Oracle: at every PENDING outcome each operation that is parked (last event = suspension) has an "
+    "injection; retries / conditions resumed by the in-process timer while the service acts on the due timer 0.3-1 s late and a sibling keeps the block running, under after-sync perturbation (the thread that sets an event, puts on a queue, submits to the pool or releases a lock is descheduled right afterwards); random crash points. Oracle: at every PENDING outcome each operation that is parked (last event = suspension) has an "
     "armed wake source in the backend table (WAIT started / STEP pending or ready / callback or invoke started-or-completed) and no "
     "non-orphan user function that was already running when the last other branch parked is still executing; liveness restated as "
     "bounded progress: the execution reaches SUCCEEDED/FAILED within the scenario's invocation bound, the driver never finds it PENDING "
